@@ -14,6 +14,7 @@ import (
 	"time"
 
 	"github.com/go-chi/jwtauth/v5"
+	"gopkg.in/yaml.v2"
 	"pgregory.net/rapid"
 
 	"verif/internal/ev"
@@ -26,12 +27,10 @@ func TestC14Binary(t *testing.T) {
 	if _, err := os.Stat(bin); err != nil {
 		t.Skipf("prunner binary not built: %v", err)
 	}
-	col := ev.Get("C14", "binary", "the real prunner binary (go build ./cmd/prunner from the tree under test) listening on a TCP port, with profiling enabled or disabled in one of the ways the CLI offers (flag absent, --enable-profiling[=true|false], PRUNNER_ENABLE_PROFILING=true|1|false|0); requests over the socket to the documented API routes, the profiling paths (/debug/pprof/, /debug/pprof/cmdline, /debug/pprof/heap, /debug/pprof/goroutine, /debug/vars, /debug/) and a few undocumented paths, without a token, with garbage, with a token signed with another secret, with an expired token (header or cookie); oracle: API routes answer 401; with profiling disabled the profiling paths answer 404 and nothing but the API answers 2xx; with profiling enabled they answer 200 without a token; the body never contains the secret; a valid token is accepted (positive control) and afterwards exactly the jobs scheduled with it exist; non-trivial = every case; distinct by (profiling, credential, path)")
-	auth := jwtauth.New("HS256", []byte(binSecret), nil)
-	_, token, _ := auth.Encode(map[string]interface{}{"sub": "bin"})
+	col := ev.Get("C14", "binary", "the real prunner binary (go build ./cmd/prunner from the tree under test) listening on a TCP port, with the secret configured in one of the ways the program offers (--jwt-secret, PRUNNER_JWT_SECRET, jwt_secret in the config file, or none of these: the program then makes one up and writes it to the config file, from where the harness reads it), with profiling enabled or disabled in one of the ways the CLI offers (flag absent, --enable-profiling[=true|false], PRUNNER_ENABLE_PROFILING=true|1|false|0); requests over the socket to the documented API routes, the profiling paths (/debug/pprof/, /debug/pprof/cmdline, /debug/pprof/heap, /debug/pprof/goroutine, /debug/vars, /debug/) and a few undocumented paths, without a token, with garbage, with a token signed with another secret or with the empty key, with an expired token (header or cookie); oracle: API routes answer 401; with profiling disabled the profiling paths answer 404 and nothing but the API answers 2xx; with profiling enabled they answer 200 without a token; the body never contains the secret; a valid token is accepted (positive control) and afterwards exactly the jobs scheduled with it exist; non-trivial = every case; distinct by (profiling, credential, path)")
 	other := jwtauth.New("HS256", []byte("another-secret-0123456789abcdef"), nil)
 	_, wrongToken, _ := other.Encode(map[string]interface{}{"sub": "bin"})
-	_, expired, _ := auth.Encode(map[string]interface{}{"sub": "bin", "exp": time.Now().Add(-time.Hour).Unix()})
+	_, emptyKeyToken, _ := jwtauth.New("HS256", []byte(""), nil).Encode(map[string]interface{}{"sub": "bin"})
 	api := []struct{ method, path string }{{"GET", "/pipelines/"}, {"GET", "/pipelines/jobs"}, {"POST", "/pipelines/schedule"}, {"GET", "/job/detail?id=00000000-0000-0000-0000-000000000000"}, {"GET", "/job/logs?id=00000000-0000-0000-0000-000000000000&task=a"}, {"POST", "/job/cancel?id=00000000-0000-0000-0000-000000000000"}}
 	debug := []string{"/debug/pprof/", "/debug/pprof", "/debug/pprof/cmdline", "/debug/pprof/heap", "/debug/pprof/goroutine?debug=1", "/debug/vars", "/debug/", "/debug"}
 	others := []string{"/", "/metrics", "/pipelines", "/job", "/healthz", "/pprof", "/debug/../pipelines/jobs", "/debug/pprof/../../pipelines/", "//pipelines/jobs", "/./pipelines/jobs", "/debug/%2e%2e/pipelines/jobs"}
@@ -44,10 +43,24 @@ func TestC14Binary(t *testing.T) {
 			rt.Fatalf("write: %v", err)
 		}
 		addr := fmt.Sprintf("127.0.0.1:%d", freePort(rt))
-		args := []string{"--jwt-secret", binSecret, "--data", filepath.Join(dir, "data"), "--path", dir, "--address", addr, "--env-files", "", "--config", filepath.Join(dir, "cfg.yml")}
+		args := []string{"--data", filepath.Join(dir, "data"), "--path", dir, "--address", addr, "--env-files", "", "--config", filepath.Join(dir, "cfg.yml")}
+		// where the secret is configured: on the command line, in the environment, in the config file, or nowhere
+		// (the program then creates the config file with a secret of its own)
+		secret := "case-secret-" + rapid.StringMatching(`[a-zA-Z0-9]{8,24}`).Draw(rt, "secret")
+		secretHow := rapid.SampledFrom([]string{"flag", "env", "file", "generated"}).Draw(rt, "secretConfiguredBy")
+		var extraEnv []string
+		switch secretHow {
+		case "flag":
+			args = append(args, "--jwt-secret", secret)
+		case "env":
+			extraEnv = append(extraEnv, "PRUNNER_JWT_SECRET="+secret)
+		case "file":
+			if err := os.WriteFile(filepath.Join(dir, "cfg.yml"), []byte("jwt_secret: "+secret+"\n"), 0o600); err != nil {
+				rt.Fatalf("write: %v", err)
+			}
+		}
 		// the ways to say it: the flag with or without a value, or the environment variable
 		how := "flag absent"
-		var extraEnv []string
 		if profiling {
 			how = rapid.SampledFrom([]string{"--enable-profiling", "--enable-profiling=true", "PRUNNER_ENABLE_PROFILING=true", "PRUNNER_ENABLE_PROFILING=1"}).Draw(rt, "how")
 		} else {
@@ -60,7 +73,12 @@ func TestC14Binary(t *testing.T) {
 			extraEnv = append(extraEnv, how)
 		}
 		cmd := exec.Command(bin, args...)
-		cmd.Env = append(os.Environ(), extraEnv...)
+		for _, kv := range os.Environ() {
+			if !strings.HasPrefix(kv, "PRUNNER_") {
+				cmd.Env = append(cmd.Env, kv)
+			}
+		}
+		cmd.Env = append(cmd.Env, extraEnv...)
 		cmd.Dir = dir
 		var logs bytes.Buffer
 		cmd.Stdout, cmd.Stderr = &logs, &logs
@@ -99,21 +117,46 @@ func TestC14Binary(t *testing.T) {
 			b, _ := io.ReadAll(io.LimitReader(resp.Body, 1<<20))
 			return resp.StatusCode, string(b)
 		}
-		// wait for the listener (a request that needs a token)
 		deadline := time.Now().Add(10 * time.Second)
+		if secretHow == "generated" {
+			// the program writes the secret it made up to the config file
+			for {
+				b, _ := os.ReadFile(filepath.Join(dir, "cfg.yml"))
+				var c struct {
+					JWTSecret string `yaml:"jwt_secret"`
+				}
+				if yaml.Unmarshal(b, &c) == nil && c.JWTSecret != "" {
+					secret = c.JWTSecret
+					break
+				}
+				if time.Now().After(deadline) {
+					rt.Fatalf("no secret on the command line, in the environment or in a config file: the program did not write one to %s: %q %s", filepath.Join(dir, "cfg.yml"), b, clipS(logs.String()))
+				}
+				time.Sleep(20 * time.Millisecond)
+			}
+		}
+		auth := jwtauth.New("HS256", []byte(secret), nil)
+		_, token, _ := auth.Encode(map[string]interface{}{"sub": "bin"})
+		_, expired, _ := auth.Encode(map[string]interface{}{"sub": "bin", "exp": time.Now().Add(-time.Hour).Unix()})
+		// wait for the listener (a request that needs a token)
 		for {
 			if code, _ := do("GET", "/pipelines/", token, "header"); code == 200 {
 				break
 			}
 			if time.Now().After(deadline) {
-				rt.Fatalf("the binary does not answer on %s: %s", addr, clipS(logs.String()))
+				for name, cred := range map[string]string{"wrong-secret": wrongToken, "signed-with-empty-key": emptyKeyToken} {
+					if code, _ := do("GET", "/pipelines/", cred, "header"); code == 200 {
+						rt.Fatalf("[C14] secret configured by %s: GET /pipelines/ with credential %q -> 200 (and a token signed with the configured secret is refused)", secretHow, name)
+					}
+				}
+				rt.Fatalf("positive control: the binary does not answer on %s (secret configured by %s): %s", addr, secretHow, clipS(logs.String()))
 			}
 			time.Sleep(20 * time.Millisecond)
 		}
-		creds := map[string]string{"none": "", "garbage": "not.a.token", "wrong-secret": wrongToken, "expired": expired, "empty-bearer": " "}
+		creds := map[string]string{"none": "", "garbage": "not.a.token", "wrong-secret": wrongToken, "expired": expired, "empty-bearer": " ", "signed-with-empty-key": emptyKeyToken}
 		n := rapid.IntRange(8, 20).Draw(rt, "probes")
 		for i := 0; i < n; i++ {
-			credName := rapid.SampledFrom([]string{"none", "none", "garbage", "wrong-secret", "expired", "empty-bearer"}).Draw(rt, "credential")
+			credName := rapid.SampledFrom([]string{"none", "none", "garbage", "wrong-secret", "expired", "empty-bearer", "signed-with-empty-key"}).Draw(rt, "credential")
 			transport := rapid.SampledFrom([]string{"header", "cookie"}).Draw(rt, "transport")
 			kind := rapid.SampledFrom([]string{"api", "api", "debug", "debug", "other"}).Draw(rt, "pathKind")
 			var code int
@@ -144,11 +187,11 @@ func TestC14Binary(t *testing.T) {
 					rt.Fatalf("[C14] profiling=%v: %s with credential %q -> %d for a request without a valid token", profiling, what, credName, code)
 				}
 			}
-			if !(profiling && kind == "debug") && strings.Contains(body, binSecret) {
+			if !(profiling && kind == "debug") && strings.Contains(body, secret) {
 				rt.Fatalf("[C14] profiling=%v: the answer to %s reveals the JWT secret", profiling, what)
 			}
-			col.Add(fmt.Sprintf("%v|%s|%s|%s", profiling, credName, transport, what), true, map[string]int{fmt.Sprintf("profiling:%v", profiling): 1, "how:" + how: 1, "credential:" + credName: 1, "kind:" + kind: 1, fmt.Sprintf("status:%d", code): 1}, 1,
-				map[string]interface{}{"profiling": profiling, "request": what, "credential": credName, "transport": transport, "status": code})
+			col.Add(fmt.Sprintf("%v|%s|%s|%s", profiling, credName, transport, what), true, map[string]int{fmt.Sprintf("profiling:%v", profiling): 1, "how:" + how: 1, "secret-by:" + secretHow: 1, "credential:" + credName: 1, "kind:" + kind: 1, fmt.Sprintf("status:%d", code): 1}, 1,
+				map[string]interface{}{"profiling": profiling, "secret_configured_by": secretHow, "request": what, "credential": credName, "transport": transport, "status": code})
 		}
 		// nothing was scheduled by all that
 		code, body := do("GET", "/pipelines/jobs", token, "header")
